@@ -274,6 +274,22 @@ Proof. exact w_shadow_facts. Qed.
 Print Assumptions class_pair_shadowing_example.
 
 (* ---- 5. class and range expansion ------------------------------------------------------------------------------ *)
+(* named glyph classes (at top level and inside feature / lookup blocks): a definition `@n = [items];` is resolved
+   in the environment BEFORE it (so `@n = [@n more];` extends the class), and from then on a reference `@n`
+   means this definition — the latest one preceding the reference — until the next definition of `n`; other
+   names are untouched.  The walk `elab` (shared by interp_fea and compile_mini) and the harness's source-side
+   interpreter both resolve references this way, independently of fea-rs. *)
+Theorem class_reference_resolves_to_latest_definition : forall incl gm delp eskip st n items c,
+  resolve_items incl gm (es_classes st) items = Some c ->
+  exists st',
+    elab_top incl gm delp eskip st (TClassDef n items) = Some st'
+    /\ elab_lstmt incl gm delp eskip st (LClassDef n items) = Some st'
+    /\ resolve_items incl gm (es_classes st') [IRef n] = Some c
+    /\ forall n', n' <> n ->
+         resolve_items incl gm (es_classes st') [IRef n'] = resolve_items incl gm (es_classes st) [IRef n'].
+Proof. exact class_definition_then_reference. Qed.
+Print Assumptions class_reference_resolves_to_latest_definition.
+
 (* glyph_range.rs before the repair: a numeric range stopped one glyph short of its end
    (key glyph-range-numeric-excludes-end) *)
 Theorem unrepaired_numeric_range_excludes_end_refuted :
